@@ -55,7 +55,7 @@ void setup(vf::Options &o) {
     g_cfg.push_back({"d2-from179", 2, 2, sub(kKeysFull, {0, 2, 7, 12}), sub(kValuesFull, {0, 8, 13})});
   } else {
     g_cfg.push_back({"d3-full", 3, 0, kKeysFull, kValuesFull});
-    g_cfg.push_back({"d3-from2", 3, 1, kKeysFull, kValuesFull});
+    g_cfg.push_back({"d3-from2", 3, 1, keys9, values9});
     g_cfg.push_back({"d4", 4, 0, sub(kKeysFull, {0, 2, 3, 5, 6, 7, 9, 12}), sub(kValuesFull, {0, 1, 4, 5, 7, 8, 9, 10})});
     g_cfg.push_back({"d5", 5, 0, sub(kKeysFull, {0, 6, 7, 9}), sub(kValuesFull, {0, 7, 8, 10})});
     g_cfg.push_back({"d3-from179", 3, 2, sub(kKeysFull, {0, 2, 7, 12}), sub(kValuesFull, {0, 8, 13})});
